@@ -2113,17 +2113,21 @@ f_objects (void)
 {
   char *func = NULL;
   object_t *ob, **tmp;
+  object_t *target = current_object;
   array_t *ret;
   funptr_t *f = 0;
   int display_hidden = 0, t_sz, i, j, num_arg = st_num_arg;
   svalue_t *v;
+  svalue_t *arg = sp - num_arg + 1;
 
   if (!num_arg)
     func = 0;
-  else if (sp->type == T_FUNCTION)
-    f = sp->u.fp;
+  else if (arg->type == T_FUNCTION)
+    f = arg->u.fp;
   else
-    func = sp->u.string;
+    func = arg->u.string;
+  if (num_arg == 2)
+    target = sp->u.ob;	/* objects(func, ob): call ob->func() */
 
   if (!(tmp = (object_t **) new_string ((t_sz = 1000) * sizeof (object_t *),
                                         "TMP: objects: tmp")))
@@ -2148,8 +2152,8 @@ f_objects (void)
             {
               FREE_MSTR ((char *) tmp);
               sp--;
-              free_svalue (sp, "f_objects");
-              *sp = const0;
+              pop_n_elems (num_arg);
+              *++sp = const0;
               return;
             }
           if (v->type == T_NUMBER && !v->u.number)
@@ -2158,13 +2162,13 @@ f_objects (void)
       else if (func)
         {
           push_object (ob);
-          v = apply (func, current_object, 1, ORIGIN_EFUN);
+          v = apply (func, target, 1, ORIGIN_EFUN);
           if (!v)
             {
               FREE_MSTR ((char *) tmp);
               sp--;
-              free_svalue (sp, "f_objects");
-              *sp = const0;
+              pop_n_elems (num_arg);
+              *++sp = const0;
               return;
             }
           if ((v->type == T_NUMBER) && !v->u.number)
